@@ -126,3 +126,71 @@ def import_fastparquet():
     import fastparquet
     assert os.path.abspath(fastparquet.__file__).startswith(os.path.abspath(REPO)), fastparquet.__file__
     return fastparquet
+
+
+# ---- process pools that survive a worker killed by the code under test ---------------------------------------------------------
+class WorkerDied:
+    """placeholder result of robust_map for a task whose process died (segfault / abort inside the real library): that is an
+    observation about the code under test (the interpreter must never die), not a failure of the checker"""
+
+    def __init__(self, task, exitcode):
+        self.task, self.exitcode = task, exitcode
+
+    def what(self):
+        sig = -self.exitcode if isinstance(self.exitcode, int) and self.exitcode < 0 else None
+        return "the interpreter DIED (%s) while the real library ran this batch: %s" % (
+            "signal %d" % sig if sig else "exit code %r" % (self.exitcode,), repr(self.task)[:160])
+
+
+def _robust_child(fn, task, conn):
+    try:
+        conn.send(("ok", fn(task)))
+    except BaseException as e:      # an exception of the worker function is the caller's business, as with Executor.map
+        conn.send(("exc", "%s: %s\n%s" % (type(e).__name__, e, traceback.format_exc()[-1500:])))
+    finally:
+        conn.close()
+
+
+def _run_alone(fn, task):
+    import multiprocessing as mp
+    ctx = mp.get_context("fork")
+    parent, child = ctx.Pipe(duplex=False)
+    pr = ctx.Process(target=_robust_child, args=(fn, task, child))
+    pr.start()
+    child.close()
+    msg = None
+    try:
+        msg = parent.recv()
+    except EOFError:
+        pass
+    pr.join()
+    if msg is None:
+        return WorkerDied(task, pr.exitcode)
+    if msg[0] == "exc":
+        raise RuntimeError("worker raised: " + msg[1])
+    return msg[1]
+
+
+def robust_map(fn, tasks, max_workers, **pool_kw):
+    """results of fn(task) in task order, like ProcessPoolExecutor.map; if the pool breaks because a worker process was killed, every
+    task without a result is re-run ALONE in a fresh process and the ones that kill their process get a WorkerDied placeholder"""
+    import concurrent.futures as cf
+    from concurrent.futures.process import BrokenProcessPool
+    tasks = list(tasks)
+    out = [None] * len(tasks)
+    have = [False] * len(tasks)
+    try:
+        with cf.ProcessPoolExecutor(max_workers=max_workers, **pool_kw) as ex:
+            futs = [ex.submit(fn, t) for t in tasks]
+            for i, f in enumerate(futs):
+                try:
+                    out[i] = f.result()
+                    have[i] = True
+                except BrokenProcessPool:
+                    pass
+    except BrokenProcessPool:
+        pass
+    for i, t in enumerate(tasks):
+        if not have[i]:
+            out[i] = _run_alone(fn, t)
+    return out
